@@ -103,14 +103,19 @@ def loadtxt(
 
     """
     if isinstance(fname, (str, bytes, PathLike)):
-        with open(fname) as src:
+        with open(fname, "rb") as src:
             header = src.readline()
     else:
         header = fname.readline()
         # the line is consumed; hand it back so a plain file keeps its first row
         fname = itertools.chain([header], fname)
     if isinstance(header, bytes):
-        header = header.decode("utf-8")
+        # savetxt writes the header (whose keys can be any character) as UTF-8,
+        # whatever the locale; other first lines only need their ASCII prefix.
+        if header.startswith((comments + "numpoly:").encode("utf-8")):
+            header = header.decode("utf-8")
+        else:
+            header = header.decode("latin-1")
 
     array = numpy.loadtxt(
         fname,
